@@ -9,7 +9,5 @@ INVARIANT TypeOK
 INVARIANT WalkCorrect
 INVARIANT DefaultsAreTheLeavesThatMatter
 INVARIANT OnlyLeavesRequiringGrad
-INVARIANT NonEmptyDefault
 INVARIANT BoundedWork
-INVARIANT Export
 CHECK_DEADLOCK FALSE
